@@ -23,6 +23,12 @@ type Plan struct {
 
 var plans = map[string]func(tier string) []Plan{}
 
+// violationCap: see the flood guard in RunWorker.
+const violationCap = 40
+
+// raceCap: race reports per worker after which the exploration is cut short.
+const raceCap = 300
+
 func emit(prefix string, v any) {
 	b, _ := json.Marshal(v)
 	os.Stdout.Write(append(append([]byte(prefix+" "), b...), '\n'))
@@ -68,9 +74,33 @@ func RunWorker(prop, tier string, shard, nshards int, deadline time.Time) int {
 		sc := pl.Sc
 		done.Bounds[sc.Name] = pl.Bound
 		stats := NewStats()
+		// flood guard: once a scenario has produced violationCap violating schedules in this worker the verdict is
+		// clear; its exploration is cut short (reported as incomplete) instead of re-running thousands of failing
+		// schedules five times each
+		var cur *Explorer
+		nviol := 0
 		report := func(choices []int, x *vsched.Exec, v Verdict) {
+			if nviol >= violationCap {
+				if cur != nil {
+					cur.Deadline = time.Now().Add(-time.Second)
+				}
+				rl.drain()
+				return
+			}
+			if len(v.Violations) > 0 {
+				nviol++
+				if nviol == violationCap {
+					done.Notes[fmt.Sprintf("scenario %s: exploration cut short after %d violating schedules in one worker", sc.Name, violationCap)]++
+				}
+			}
 			for _, rep := range rl.drain() {
 				done.Races++
+				if done.Races >= raceCap {
+					// every schedule races: the verdict is clear, the rest of the scenarios would only produce the same
+					// reports thousands of times
+					nviol = violationCap
+					done.Notes[fmt.Sprintf("exploration cut short after %d race reports in one worker", raceCap)]++
+				}
 				sig := raceSignature(rep)
 				if raceSeen[sig] {
 					continue
@@ -111,6 +141,7 @@ func RunWorker(prop, tier string, shard, nshards int, deadline time.Time) int {
 		}
 		e := &Explorer{Sc: sc, Bound: pl.Bound, Deadline: deadline, Stats: stats, HBCache: true, seen: map[uint64]int{}}
 		e.OnExec = func(choices []int, x *vsched.Exec, v Verdict) { report(choices, x, v) }
+		cur = e
 		// level 0 and 1 are run by every worker (cheap) but only reported by their owner;
 		// level-2 subtrees are distributed round-robin.
 		root, rv := RunOnce(sc, nil, false)
@@ -168,9 +199,12 @@ func RunWorker(prop, tier string, shard, nshards int, deadline time.Time) int {
 			if sp.dependency || sp.name == "S-H" {
 				continue // these use scheduler-only handlers
 			}
-			for i := 0; i < reps; i++ {
+			for i := 0; i < reps && !c15FreeRunStalled; i++ {
 				c15FreeRun(sp)
 				done.FreeRuns++
+			}
+			if c15FreeRunStalled {
+				done.Notes["free-running cross-check abandoned: a run did not finish within 20 s"]++
 			}
 			for _, rep := range rl.drain() {
 				done.FreeRaces++
@@ -234,12 +268,16 @@ func init() {
 				switch sp.name {
 				case "X1", "X2", "X3", "X5", "X6":
 					bound = -1 // unbounded: the happens-before state cache makes the full schedule space finite and small
+				case "X10":
+					bound = 2 // (two listeners, two connections, a closer: 6 threads; bound 4 does not finish within the budget)
+				case "X12":
+					bound = 3
 				default:
 					bound = 4
 				}
 			} else if sp.name == "X6" {
 				continue
-			} else if sp.name == "X10" || sp.name == "X12" {
+			} else if sp.name == "X10" || sp.name == "X12" || sp.name == "X13" {
 				bound = 1
 			}
 			out = append(out, Plan{Sc: c16Scenario(sp), Bound: bound})
